@@ -4,6 +4,8 @@
 package hclwrite
 
 import (
+	"strings"
+
 	"github.com/hashicorp/hcl/v2/hclsyntax"
 	"github.com/zclconf/go-cty/cty"
 )
@@ -150,24 +152,36 @@ func (bl *blockLabels) Current() []string {
 
 		case *quoted:
 			tokens := labelObj.tokens
-			if len(tokens) == 3 &&
-				tokens[0].Type == hclsyntax.TokenOQuote &&
-				tokens[1].Type == hclsyntax.TokenQuotedLit &&
-				tokens[2].Type == hclsyntax.TokenCQuote {
-				// Note that TokenQuotedLit may contain escape sequences.
-				labelString, diags := hclsyntax.ParseStringLiteralToken(tokens[1].asHCLSyntax())
+			if len(tokens) < 2 ||
+				tokens[0].Type != hclsyntax.TokenOQuote ||
+				tokens[len(tokens)-1].Type != hclsyntax.TokenCQuote {
+				// (should be impossible) an invalid label is just ignored.
+				break
+			}
+
+			// Between the quotes are zero or more literal tokens: none for the
+			// valid but unusual blank string label, and more than one when the
+			// scanner split the literal at a "$" or "%" character. Note that a
+			// TokenQuotedLit may contain escape sequences.
+			var labelString strings.Builder
+			valid := true
+			for _, tok := range tokens[1 : len(tokens)-1] {
+				if tok.Type != hclsyntax.TokenQuotedLit {
+					valid = false
+					break
+				}
+				part, diags := hclsyntax.ParseStringLiteralToken(tok.asHCLSyntax())
 
 				// If parsing the string literal returns error diagnostics
 				// then we can just assume the label doesn't match, because it's invalid in some way.
-				if !diags.HasErrors() {
-					labelNames = append(labelNames, labelString)
+				if diags.HasErrors() {
+					valid = false
+					break
 				}
-			} else if len(tokens) == 2 &&
-				tokens[0].Type == hclsyntax.TokenOQuote &&
-				tokens[1].Type == hclsyntax.TokenCQuote {
-				// An open quote followed immediately by a closing quote is a
-				// valid but unusual blank string label.
-				labelNames = append(labelNames, "")
+				labelString.WriteString(part)
+			}
+			if valid {
+				labelNames = append(labelNames, labelString.String())
 			}
 
 		default:
